@@ -38,6 +38,9 @@ func (c *C) Choose(n int, label string) int {
 	return t
 }
 
+// Prefix returns the choice prefix this execution was started with.
+func (c *C) Prefix() []int { return append([]int(nil), c.prefix...) }
+
 // Deviations returns the number of non-default answers taken.
 func (c *C) Deviations() int {
 	d := 0
@@ -80,9 +83,18 @@ type Stats struct {
 // must be deterministic given the choice vector. It returns an error on
 // divergence.
 func Explore(bound int, run func(c *C)) (Stats, error) {
+	return ExploreSkip(bound, nil, run)
+}
+
+// ExploreSkip is Explore with a predicate naming choice prefixes that must not
+// be executed (nor extended): used to step around an execution that hung.
+func ExploreSkip(bound int, skip func(prefix []int) bool, run func(c *C)) (Stats, error) {
 	st := Stats{PerBound: map[int]int64{}}
 	var rec func(prefix []int, dev int) error
 	rec = func(prefix []int, dev int) error {
+		if skip != nil && skip(prefix) {
+			return nil
+		}
 		c := &C{prefix: prefix}
 		run(c)
 		if c.Diverged != "" {
